@@ -911,14 +911,14 @@ func TestCheck(t *testing.T) {
 	rec.Assume("histories (kind history): every hash is judged by the CONTENT of the TypedData variable at that moment (its four exported fields rendered to JSON): reference digest, and the same verdict as a new TypedData with that content; json.Unmarshal into a used variable merges into its maps (encoding/json) — the merged content is what is judged. EncodeTypedDataV4 may fill the empty EIP712Domain type / domain object into a payload that has none (deliberate); any other change of the payload is a violation")
 	rec.Assume("shared (kind shared): goroutines share one decoded payload / its type set, domain and message maps / one ABI type tree; a payload without EIP712Domain type or domain object is hashed once before it is shared (EncodeTypedDataV4 writes the defaults into it); concurrent-* kinds: the per-case judges from 4..8 goroutines at once on the heaviest cases")
 	kDoc := evid.NewKind(rec, "doc", judgeDoc)
-	cpool := tdgen.NewHeavyPool(rec, "concurrent", judgeDoc, 32)
+	cpool := evid.NewPool(rec, "concurrent", judgeDoc, 32).DeclareEach()
 	kWallet := evid.NewKind(rec, "wallet", judgeWallet)
 	kABI := evid.NewKind(rec, "abi", judgeABI)
 	kHist := evid.NewKind(rec, "history", judgeHist)
 	kShared := evid.NewKind(rec, "shared", judgeShared).DeclareEach()
-	pABI := tdgen.NewHeavyPool(rec, "concurrent-abi", judgeABI, 32)
-	pWallet := tdgen.NewHeavyPool(rec, "concurrent-wallet", judgeWallet, 8)
-	pHist := tdgen.NewHeavyPool(rec, "concurrent-history", judgeHist, 16)
+	pABI := evid.NewPool(rec, "concurrent-abi", judgeABI, 32).DeclareEach()
+	pWallet := evid.NewPool(rec, "concurrent-wallet", judgeWallet, 8).DeclareEach()
+	pHist := evid.NewPool(rec, "concurrent-history", judgeHist, 16).DeclareEach()
 	rec.Corpus(t)
 
 	atomTypes := map[string]bool{}
@@ -1000,22 +1000,22 @@ func TestCheck(t *testing.T) {
 		pWallet.Offer(c)
 		kWallet.Check(rt, c, nt, "wallet")
 	})
-	cpool.Run(t, "concurrent", 8, 3, 8)
-	pABI.Run(t, "concurrent-abi", 8, 3, 16)
-	pHist.Run(t, "concurrent-history", 8, 2, 8)
-	pWallet.Run(t, "concurrent-wallet", 4, 2, 8)
+	cpool.Run(t, 8, 3, 8)
+	pABI.Run(t, 8, 3, 16)
+	pHist.Run(t, 8, 2, 8)
+	pWallet.Run(t, 4, 2, 8)
 }
 
 func TestReplay(t *testing.T) {
 	rec := evid.Start("C04", rule)
 	evid.NewKind(rec, "doc", judgeDoc)
-	tdgen.NewHeavyPool(rec, "concurrent", judgeDoc, 0)
+	evid.NewPool(rec, "concurrent", judgeDoc, 0).DeclareEach()
 	evid.NewKind(rec, "wallet", judgeWallet)
 	evid.NewKind(rec, "abi", judgeABI)
 	evid.NewKind(rec, "history", judgeHist)
 	evid.NewKind(rec, "shared", judgeShared).DeclareEach()
-	tdgen.NewHeavyPool(rec, "concurrent-abi", judgeABI, 0)
-	tdgen.NewHeavyPool(rec, "concurrent-wallet", judgeWallet, 0)
-	tdgen.NewHeavyPool(rec, "concurrent-history", judgeHist, 0)
+	evid.NewPool(rec, "concurrent-abi", judgeABI, 0).DeclareEach()
+	evid.NewPool(rec, "concurrent-wallet", judgeWallet, 0).DeclareEach()
+	evid.NewPool(rec, "concurrent-history", judgeHist, 0).DeclareEach()
 	rec.Replay(t)
 }
